@@ -451,6 +451,41 @@ struct CoopRun {
     }
 };
 
+
+// what a cooperative learned model ANSWERS against what it EXPOSES: its tables, then queries getTransitionProbability /
+// getExpectedReward(s); when the joint next-state space is small every s1 is queried (the driver also checks that they sum to one)
+template <class Mod>
+static void coopQueryLine(const char * comp, const F::DDNGraph & g, const Mod & m, Rng & rng, int nq) {
+    const auto & S = g.getS(); const auto & A = g.getA();
+    size_t nf = S.size(), na = A.size();
+    KLine h; h.head.push_back(comp); graphHeader(h, g);
+    for (size_t i = 0; i < nf; ++i) for (size_t j = 0; j < g.getSize(i); ++j) {
+        for (size_t k = 0; k < S[i]; ++k) h.hd(m.getTransitionFunction().transitions[i](j, k));
+        h.hd(m.getRewardFunction()[i][j]);
+    }
+    size_t space = 1; for (auto x : S) space *= x;
+    bool full = space <= 96;
+    for (int q = 0; q < nq; ++q) {
+        F::State s(nf); F::Action a(na);
+        for (size_t k = 0; k < nf; ++k) s[k] = rng.below(S[k]);
+        for (size_t k = 0; k < na; ++k) a[k] = rng.below(A[k]);
+        F::State z(nf, 0);
+        h.t("q").v(s).v(a).d(m.getExpectedReward(s, a, z));
+        auto rv = m.getExpectedRewards(s, a, z); for (size_t i = 0; i < nf; ++i) h.d(rv[i]);
+        size_t K = full ? space : 6;
+        h.n(full ? 1 : 0).n(K);
+        for (size_t c = 0; c < K; ++c) {
+            F::State s1(nf);
+            if (full) { size_t id = c; for (size_t k = 0; k < nf; ++k) { s1[k] = id % S[k]; id /= S[k]; } }
+            else for (size_t k = 0; k < nf; ++k) s1[k] = rng.below(S[k]);
+            h.v(s1).d(m.getTransitionProbability(s, a, s1));
+        }
+        h.op();
+    }
+    h.emit("coopq");
+    std::printf("#stat coop_query_line_%s 1\n", full ? "full_joint" : "sampled_joint");
+}
+
 static void coopCase(Rng & rng, long nops, int rewardMode, double junk, bool withThompson, bool rich = true) {
     CoopRun cr(randomGraph(rng, rich), junk);
     const auto & S = cr.g.getS(); const auto & A = cr.g.getA();
@@ -494,7 +529,9 @@ static void coopCase(Rng & rng, long nops, int rewardMode, double junk, bool wit
         for (size_t i = 0; i < nf; ++i) thompsonLineCoop(cr.exp, tm, i);
         tm.sync();
         for (size_t i = 0; i < nf; ++i) thompsonLineCoop(cr.exp, tm, i);
+        coopQueryLine("CooperativeThompsonModel", cr.g, tm, rng, 4);
     }
+    if (cr.mod) coopQueryLine("CooperativeMaximumLikelihoodModel", cr.g, *cr.mod, rng, 3);
     cr.finish();
 }
 
@@ -630,6 +667,7 @@ static void tsyncCoopCase(Rng & rng, long nrec, int rewardMode) {
         if (rng.coin(1, 40)) { syncAllShadow(); tm.sync(); emit(tm); }
     }
     emit(tm);
+    coopQueryLine("CooperativeThompsonModel", g, tm, rng, 3);
 }
 
 // ---------------------------------------------------------------------------------------------
